@@ -19,7 +19,8 @@ from dep_logic.tags.tags import EnvCompatibility, parse_wheel_tags  # noqa: E402
 THEOREMS_BY_PROP = {
     "C08": ["DepLogic.C08.evalPyCore_iff", "DepLogic.C08.compatible_of_exists", "DepLogic.C08.exists_of_compatible",
             "DepLogic.C08.exists_cut_of_compatible", "DepLogic.C08.wheelSpec_reads",
-            "DepLogic.C08.score_shape", "DepLogic.C05.isEmpty_sound", "DepLogic.C01.and_exact", "DepLogic.C04.leaf_exact"],
+            "DepLogic.C08.score_shape", "DepLogic.C08.abiGate_iff", "DepLogic.C05.isEmpty_sound", "DepLogic.C01.and_exact",
+            "DepLogic.C04.leaf_exact"],
     "C09": ["DepLogic.C09.manylinux_tags", "DepLogic.C09.manylinuxLoop_mem", "DepLogic.C09.manylinuxLoop_sorted",
             "DepLogic.C09.musllinux_tags", "DepLogic.C09.macos_arm64_tags", "DepLogic.C09.macos10_x86_64_tags",
             "DepLogic.C09.macos11_x86_64_tags", "DepLogic.C09.windows_tags", "DepLogic.C09.rangeDown_mem",
